@@ -239,6 +239,9 @@ var c18TimeZones = []string{"UTC", "Europe/Moscow", "America/New_York", "Asia/Is
 	"UTC", "Europe/Moscow", "a'b", "'", "\\", "a\\b", "tab\tx", "it's", "\\'", "nl\nx", "\x00", "Ünï"}
 var c18EnumNames = []string{"a", "b", "c", "hello", "hello world", "", "Ünï", "привет", "a=b", "x,y", "(", ")", "--", "/*", "*/", "0", "NULL", " ",
 	"back\\slash", "\\", "tab\tx", "nl\nx", "cr\r", "nul\x00", "bs\b", "ff\f", "\\n", "a\"b", "`", "=", " = 1", "a'b", "'", "it's", "''", "x\\'y"}
+
+// the generator's copy of isDataTypeName's list. It only steers generation (which names may stand where); if /repo's list
+// changes, the `c18ty` correspondence below reports it (the Lean side's WfTy uses the regenerated DC.Gen.TypeNames).
 var c18ListedSet = func() map[string]bool {
 	m := map[string]bool{}
 	for _, s := range []string{"INT", "INT8", "INT16", "INT32", "INT64", "INT128", "INT256", "UINT8", "UINT16", "UINT32", "UINT64", "UINT128", "UINT256",
